@@ -21,6 +21,7 @@ func Run(cfg hx.Config) error {
 	}
 	rnd := hx.NewRand(cfg.Seed)
 	r.Rule = "each case is a generated package database (or os-release file) rendered by the harness's writer and scanned by the real scanner inside a tar layer; a case is non-trivial when the database holds at least one installed package or reaches an error/restart path of the parser; distinct = distinct database bytes"
+	runCorpus(r, cfg.Corpus)
 	runDpkg(r, rnd.Fork(), cfg)
 	runDistroless(r, rnd.Fork(), cfg)
 	runApk(r, rnd.Fork(), cfg)
